@@ -5,6 +5,7 @@ package db
 
 import (
 	"errors"
+	"cloud.google.com/go/datastore"
 	"github.com/syndtr/goleveldb/leveldb"
 	"github.com/syndtr/goleveldb/leveldb/opt"
 	"github.com/syndtr/goleveldb/leveldb/iterator"
@@ -18,6 +19,12 @@ var ETABLEALREADYEXISTS = errors.New("Table already exists")
 var ETABLENOTFOUND  = errors.New("Table not found")
 var EFAILED = errors.New("Operation failed")
 var EINVALIDTABLENAME = errors.New("Invalid table name")
+
+// IsNotFound reports whether the error returned by a Get says that there is
+// no record with the given key, as opposed to a failure to read the record
+func IsNotFound(err error) bool {
+	return err == leveldb.ErrNotFound || err == datastore.ErrNoSuchEntity
+}
 
 type Database interface
 {
